@@ -172,7 +172,7 @@ def run(ctx):
     # ---- 3 and 4 containers: sampled -------------------------------------------------------------------------------
     for k in (3, 4):
         shapes = list(itertools.product(*[range(-1, i) for i in range(k)]))
-        for t in range(ctx.size(700, 40_000)):
+        for t in range(ctx.size(1500, 100_000)):
             item += 1
             if not ctx.mine(item):
                 continue
@@ -195,7 +195,7 @@ def run(ctx):
     # ---- random deeper documents (nested + shared containers, criteria on user-data fields) ------------------------------
     prof = gen.Profile(max_depth=4, max_fanout=3, p_abstract=0.5, p_nested=0.35, p_dynamic=0.1, p_calibrated=0.15,
                        kinds=("integer", "enumerated", "boolean", "binary"))
-    for d in range(ctx.size(120, 8000)):
+    for d in range(ctx.size(250, 20000)):
         if not ctx.mine(d):
             continue
         r2 = ctx.rng("deep", d)
